@@ -257,4 +257,5 @@ PROBES = ['append_ok', 'append_after_copy', 'append_after_raw_reread', 'append_l
           'append_string_array_column', 'append_enum_column', 'append_empty', 'write_copy',
           'write_self_recreates_deleted_file', 'write_ndarray_over_existing', 'start_from_external_file', 'append_after_missing_refusal_and_external_restore',
           'append_pair_value_the_format_cannot_carry', 'append_rows_with_other_field_order',
+          'bystander_named_after_bound_file',
           'write_with_custom_comments', 'append_widens_variable_length_char_column']
